@@ -7,13 +7,13 @@ SPEC = {
     'parts': [
         {'pkg': 'internal/reader', 'pkgname': 'reader',
          'src': 'harness/internal/reader/c18_test.go', 'test': 'TestVerif_C18_home_seq',
-         'sinks': {'C18_home_seq': 'hseq_judge'}, 'n': {'quick': 210, 'thorough': 6000}},
+         'sinks': {'C18_home_seq': 'hseq_judge'}, 'n': {'quick': 150, 'thorough': 6000}},
         {'pkg': 'internal/reader', 'pkgname': 'reader',
          'src': 'harness/internal/reader/c18_test.go', 'test': 'TestVerif_C18_home_conc', 'race': True,
          'sinks': {'C18_home_conc': 'hconc_judge'}, 'n': {'quick': 12, 'thorough': 300}},
         {'pkg': 'pkg/reader', 'pkgname': 'reader',
          'src': 'harness/pkg/reader/c18_test.go', 'test': 'TestVerif_C18_rmn_seq',
-         'sinks': {'C18_rmn_seq': 'rseq_judge'}, 'n': {'quick': 150, 'thorough': 6000}},
+         'sinks': {'C18_rmn_seq': 'rseq_judge'}, 'n': {'quick': 110, 'thorough': 6000}},
         {'pkg': 'pkg/reader', 'pkgname': 'reader',
          'src': 'harness/pkg/reader/c18_test.go', 'test': 'TestVerif_C18_rmn_conc', 'race': True,
          'sinks': {'C18_rmn_conc': 'rconc_judge'}, 'n': {'quick': 12, 'thorough': 300}},
@@ -26,9 +26,12 @@ SPEC = {
     ],
     'rule': 'hseq/rseq: event histories (start, poll, read, close) of classes mixed (success with changed config / failure / '
             'empty config / undecodable and duplicate entries), health (9..12 failures around MaxFailedPolls, optionally split '
-            'by one success, failing or succeeding initial fetch), paging (99/100/101/199/200/201 entries in pages of 100, failing '
+            'by one success, failing or succeeding initial fetch), delta (successive SUCCESSFUL polls differing in exactly one aspect: only the readers of one '
+            'chain / only f of one chain / only the chain set / only the entry order / only the opaque config / identical; RMN: only one '
+            'observer bit / F / chain set / chain order / one node / offchain config / candidate digest / identical; all views read after '
+            'every poll), paging (99/100/101/199/200/201 entries in pages of 100, failing '
             'second page, over-long page, script after the short page), lifecycle (reads before Start, Close before Start, double '
-            'Start/Close, Close while a paged fetch is in flight, events after Close); every getter + Ready + HealthReport '
+            'Start/Close, Close while a paged fetch is in flight, events after Close); every getter (every peer 1..7, selector 1..8, digest 0..6) + Ready + HealthReport '
             'compared at every read. hconc/rconc: 20-60 distinct configurations polled back to back, 16 reader goroutines, '
             'each record = 4 getter results + one RLock-ed copy of the state struct. bitmap: all (n<=8, bitmap<=2^n, j<n) + '
             'random n<=256 + invalid (nil, negative, too large, n in {0,-1,257,300}, j out of range). conv: active/candidate '
